@@ -636,3 +636,18 @@ V("c08-order-store-transposed", "C08", "fire", UT, "        ordered[x, y] = i\n"
 V("c08-silent-order-y-heads", "C08", "silent", UT, "        with_unlabelled = np.unique(np.hstack((froms, tos)))\n", "        with_unlabelled = np.unique(tos)\n", what="the last endpoint in topological order is always a head: heads suffice")
 V("c08-silent-order-slice-reverse", "C08", "silent", UT, "        y = sort(with_unlabelled, reversed(order))[0]\n", "        y = sort(with_unlabelled, order[::-1])[0]\n", what="reversed via slicing")
 V("c07-skeleton-maximum", "C07", "fire", UT, "return ((A + A.T) != 0).astype(int)", "return (np.maximum(A, A.T) != 0).astype(int)", rule="PAT.result", what="negative-weight edges vanish from the skeleton that is_consistent_extension compares")
+
+# ------------------------------------------------------------------------------- call spelling (keyword / reordered arguments to repo functions: silent)
+V("c19-silent-pa-keywords", "C19", "silent", SE, "        for i in range(self.p):\n            parents = sempler.utils.pa(i, self.graph)\n", "        for i in range(self.p):\n            parents = sempler.utils.pa(A=self.graph, i=i)\n", what="keyword arguments in another order",
+  more=[(SE, "                    parents = sempler.utils.pa(i, self.graph)\n                    new_data", "                    parents = sempler.utils.pa(A=self.graph, i=i)\n                    new_data")])
+V("c10-silent-rule1-keywords", "C10", "silent", UT, "    if len(pa(i, A)) > 0 and not pa(i, A) <= adj(j, A):", "    if len(pa(A=A, i=i)) > 0 and not pa(i, A=A) <= adj(A=A, i=j):", what="keyword spelling of pa / adj")
+V("c08-silent-step-pa-keywords", "C08", "silent", UT, "            z_exists = len(pa(y, labelled) - {x} - pa(x, labelled)) > 0\n", "            z_exists = len(pa(A=labelled, i=y) - {x} - pa(i=x, A=labelled)) > 0\n", what="keyword spelling of pa")
+
+# ------------------------------------------------------------------------------- whole-tree behaviour-preserving transformations (silent for every property)
+for _i in [1, 2, 3, 4, 5, 6, 7, 8, 10, 11, 12, 13, 14, 15, 16, 17, 18, 19, 20]:
+    for _t, _w in (("@kwargs_calls", "calls to the repository's own functions re-spelled with keyword arguments in reversed order"),
+                   ("@strip_docs_annotate", "docstrings removed, parameters and returns annotated"),
+                   ("@logging", "a module logger and a debug call at the start of every function")):
+        VARIANTS.append(dict(id="%s-c%02d" % (_t[1:].replace("_", "-"), _i), prop="C%02d" % _i, expect="silent", edits=[(_t,)], rule=None, what=_w))
+V("c14-shuffle-keyword-on-caller-data", "C14", "fire", UT, "        n = len(sample)\n        sample = sample.copy()\n        rng.shuffle(sample)\n", "        n = len(sample)\n        rng.shuffle(x=sample)\n", rule="M1.param", what="in-place shuffle of the caller's array, argument passed by keyword")
+V("c17-silent-shuffle-keyword", "C17", "silent", UT, "        rng.shuffle(sample)\n", "        rng.shuffle(x=sample)\n", what="shuffle argument passed by keyword")
